@@ -635,6 +635,9 @@ func (t *str) translate(key string, fd *ast.FuncDecl) *sUnit {
 		}
 	}
 	if u.cb != "" {
+		if len(u.mutRecv) > 0 {
+			dieAt(fd, "a function that calls back may not update its receiver (the callback may be looking at it)")
+		}
 		u.resTypes = append(u.resTypes, "σ")
 	}
 	if u.hasRet {
@@ -1430,6 +1433,17 @@ func (c *sctx) callUnit(key, recv string, call *ast.CallExpr, en sEnv, effects b
 				dieAt(a, "argument %s for a func(T) parameter (only a function literal is in the fragment)", src(a))
 			}
 			lam, places, init := c.closure(fl, en)
+			for _, pl := range places {
+				shared := pl.v == recv
+				for _, other := range call.Args {
+					if id, isId := other.(*ast.Ident); isId && id.Name == pl.v {
+						shared = true
+					}
+				}
+				if shared {
+					dieAt(a, "the function literal updates %s, which is also handed to the callee", pl.v)
+				}
+			}
 			cbPlaces = places
 			args = append(args, lam, init)
 			continue
